@@ -162,7 +162,10 @@ def run_group(scratch, crate, flags, harnesses, jobs, outdir):
         load = 0.0
     scale = float(os.environ.get("VERIF_TIMEOUT_SCALE", "1.5")) * max(1.0, load)
     tmo = int(max(h.timeout for h in harnesses) * scale)
-    mem = max(h.mem for h in harnesses)
+    # RLIMIT_AS is inherited by every process of the invocation, including kani-driver itself, whose *virtual*
+    # size (threads, result JSON of thousands of checks) exceeded a 12 GB cap after all proofs were done
+    # ("memory allocation of 128 bytes failed"): the cap is therefore generous and only stops runaway CBMC processes
+    mem = max(32, 2 * max(h.mem for h in harnesses))
     tag = "%s-%s-%d-%s" % (crate, "_".join(flags) or "std", os.getpid(), names[0][-24:])
     export = os.path.join(outdir, "kani-%s.json" % tag)
     if os.path.exists(export):
